@@ -501,7 +501,7 @@ class StartStopSuite(SystemSuite):
         self.which = which
 
     def make(self, rng, *, stage, n, start_index, udi, sar, placements, nrows, custom=None, method="x1x1x1,2",
-             stray_go=False, relook_row=None):
+             stray_go=False, relook_row=None, relook_mid=None):
         dur = Fraction(1, 8)
         look_to = Fraction(131, 1000)
         sch = Schedule(look_to, dur)
@@ -510,6 +510,8 @@ class StartStopSuite(SystemSuite):
             evs.append(ev(Fraction(57, 1000), "call", "Go"))
         if relook_row is not None:   # a fresh Look to right after a whole pull has been completed
             evs.append(ev(sch.pause(relook_row * n + n - 1, Fraction(1, 2)), "call", "Look to"))
+        if relook_mid is not None:   # ... or while the tick for the first place of a handstroke row is asleep
+            evs.append(ev(sch.wait(relook_mid * n, Fraction(1, 2)), "call", "Look to"))
         calls = []
         for (row, place, in_pause, call) in placements:
             j = row * n + place
@@ -522,7 +524,8 @@ class StartStopSuite(SystemSuite):
         return {"gen": spec, "udi": udi, "stop_at_rounds": sar, "call_comps": True, "name": None, "instance": None,
                 "rhythm": {"kind": "scripted", "durs": [fstr(dur)] * (nrows * n + 8)}, "delta": "0",
                 "horizon": fstr(sch.end_of(nrows * n) + Fraction(1, 3000)), "events": sorted_events(evs),
-                "oracle": {"calls": calls, "nrows": nrows, "n": n, "relook_row": relook_row}}
+                "oracle": {"calls": calls, "nrows": nrows, "n": n, "relook_row": relook_row, "relook_mid": relook_mid,
+                           "relook_time": None if relook_mid is None else fstr(sch.wait(relook_mid * n, Fraction(1, 2)))}}
 
     def scenarios(self, rng, tier):
         nrows = 12
@@ -555,6 +558,9 @@ class StartStopSuite(SystemSuite):
                     if r >= g:
                         yield self.make(rng, stage=stage, n=n, start_index=si, udi=udi, sar=False, nrows=nrows,
                                         placements=[(g, rng.randrange(n), False, "Go")], method=method, relook_row=r)
+            if not udi and si % 2 == 0:                      # Look to again just as a handstroke row is about to begin
+                yield self.make(rng, stage=stage, n=n, start_index=si, udi=udi, sar=False, nrows=nrows,
+                                placements=[(0, 0, False, "Go")], method=method, relook_mid=4)
             for g in range(0, 3):                            # repeated / superfluous Go; Go after That's all
                 g2 = rng.randint(g + 1, 8)
                 yield mk([(g, 0, False, "Go"), (g2, rng.randrange(n), False, "Go")])
@@ -616,6 +622,14 @@ class StartStopSuite(SystemSuite):
                 return rounds
             return mrows[kind[1]]
 
+        if orc.get("relook_mid") is not None:
+            # all bells are at hand; after the new Look to the first bell struck must lead the opening row
+            t2 = Fraction(orc["relook_time"])
+            later = [b for (t, b, _h) in strikes(out) if t > t2]
+            if later and later[0] != opening[0]:
+                return (f"Look to while the tick of row {orc['relook_mid']} place 0 was asleep: the next bell struck was "
+                        f"{later[0]}, the opening row starts with {opening[0]}")
+            return None
         got = [(r, bells) for (r, bells, _t) in rows_rung(out) if len(bells) == n]
         calls, nrows_spec = orc["calls"], orc["nrows"]
         if orc.get("relook_row") is not None:
@@ -658,12 +672,19 @@ class StartStopSuite(SystemSuite):
     def oracle_C06(self, case, out):
         return self._check(case, out)
 
+    def finding_class(self, pid, case, out, msg):
+        if case["oracle"].get("relook_mid") is not None and msg.startswith("Look to while the tick"):
+            return "look-to-during-tick"
+        return None
+
     def oracle_C10(self, case, out):
         if "trace" in out and out["outcome"][0] == "crashed":
             return f"Wheatley's main loop was killed by {out['outcome'][2]} at {out['outcome'][3]}"
         return None
 
     def oracle_C07(self, case, out):
+        if case["oracle"].get("relook_mid") is not None:
+            return None          # a start-discipline case (C06)
         return self._check(case, out)
 
     def oracle_C01(self, case, out):
@@ -1377,4 +1398,115 @@ class ServerSuite(SystemSuite):
             idle_from = max([Fraction(it[0]) for it in tr if it[1] == "is_ringing" and it[2] is False] or [D01])
             if end > idle_from + 300 + Fraction(5, 100):
                 return f"still running {float(end - idle_from):.2f}s after ringing stopped"
+        return None
+
+
+# ============================================================================= statement-level placements (C06, C10)
+class StatementLevelSuite(SystemSuite):
+    """Messages that land BETWEEN two statements of the main thread (sys.settrace injector, see
+    sim.Injector): the granularity the system model does not have, so these are judged by the
+    oracle only.  Two windows are known to be unsafe and are listed in known_findings.json."""
+    name = "statement_level"
+
+    def scenarios(self, rng, tier):
+        n, dur, look = 4, Fraction(1, 8), Fraction(131, 1000)
+        sch = Schedule(look, dur)
+        # --- a Go delivered before statement k of the row turnover
+        for si in (0, 1):
+            for call in (1, 2, 3):
+                for k in range(0, 27):
+                    evs = [ev(0, "global", [True] * n), ev(look, "call", "Look to")]
+                    yield {"gen": {"kind": "pn", "stage": 4, "method": "x1x1,2", "bob": None, "single": None,
+                                   "start_index": si, "custom": None},
+                           "udi": False, "stop_at_rounds": False, "call_comps": True, "name": None, "instance": None,
+                           "rhythm": {"kind": "scripted", "durs": [fstr(dur)] * 100}, "delta": "0",
+                           "horizon": fstr(sch.end_of(9 * n) + Fraction(1, 3000)), "events": sorted_events(evs),
+                           "inject": {"func": "start_next_row", "file": "bot.py", "call": call, "stmt": k,
+                                      "event": ["call", "Go"]},
+                           "oracle_only": True, "oracle": {"kind": "go", "turnover_into": call, "n": n, "si": si}}
+        # --- a human blow struck a row ahead, delivered inside the loop that arms the next row
+        spec = {"kind": "plain_hunt", "stage": 4, "custom": None}
+        rows = probe_rows(spec, n, 6)
+        humans = [2, 3]
+        iv = blow_interval(180, n)
+        look2 = Fraction(211, 1000)
+        start = look2 + 3
+        for r_arm in (2, 3, 4):
+            for c in range(4 * r_arm - 1, 4 * r_arm + 5):
+                for early_bell in humans:
+                    evs = [ev(0, "global", [True] * n), ev(Fraction(3, 100), "user_entered", 11, "Alice")]
+                    for b in humans:
+                        evs.append(ev(Fraction(5, 100) + Fraction(b, 10000), "assign", b, 11))
+                    evs.append(ev(look2, "call", "Look to"))
+                    for r, row in enumerate(rows):
+                        for p, bell in enumerate(row):
+                            if bell in humans and (r, bell) != (r_arm, early_bell):
+                                evs.append(ev(start + iv * (r * n + p + r // 2) - Fraction(5, 1000) + Fraction(r * 7 + p, 10 ** 6),
+                                              "ring", bell))
+                    yield {"gen": spec, "udi": True, "stop_at_rounds": False, "call_comps": True, "name": None,
+                           "instance": None,
+                           "rhythm": {"kind": "wait", "inertia": 1.0, "initial_inertia": 1.0, "peal_speed": 180, "gap": 1.0,
+                                      "max": 15},
+                           "delta": "0", "horizon": fstr(start + iv * (6 * n + 3) + 1), "events": sorted_events(evs),
+                           "inject": {"func": "expect_bell", "file": "bot.py", "call": c, "stmt": 0,
+                                      "event": ["ring", early_bell]},
+                           "oracle_only": True,
+                           "oracle": {"kind": "arming", "n": n, "rows": 6, "r_arm": r_arm, "call": c, "bell": early_bell,
+                                      "all_rows": rows}}
+
+    def run_impl(self, case):
+        c = {k: v for k, v in case.items() if k not in ("oracle", "oracle_only")}
+        return sim.run_scenario(c, gens.build_impl_generator)
+
+    def to_coq(self, case, out):
+        raise NotImplementedError
+
+    def _judge(self, case, out):
+        if "trace" not in out or not out.get("injected"):
+            return None
+        orc = case["oracle"]
+        n = orc["n"]
+        rows = [b for (r, b, _t) in rows_rung(out) if len(b) == n]
+        if orc["kind"] == "go":
+            if out["outcome"][0] == "crashed":
+                return f"a Go delivered inside the row turnover killed the main loop ({out['outcome'][2]})"
+            r = orc["turnover_into"]           # the row being begun when the Go lands
+            sp_hand = orc["si"] % 2 == 0
+            ok = set()
+            for g in (r - 1, r):               # the Go counts as spoken during the old or during the new row
+                ok.add(g + 1 if ((g + 1) % 2 == 0) == sp_hand else g + 2)
+            first = next((i for i, b in enumerate(rows) if b != list(range(1, n + 1))), None)
+            if first not in ok:
+                return (f"a Go delivered inside the turnover into row {r}: the method started at row {first}, "
+                        f"the start discipline allows {sorted(ok)}")
+            return None
+        if orc["kind"] == "arming":
+            # which blow did the injected strike turn out to be?  only the case "the bell had already rung the row
+            # that has just finished" is a blow a row ahead
+            if orc["call"] // n > orc["r_arm"]:
+                return None       # the blow was held back past its own row: a real hold-up, not the case aimed at
+            if len(rows) < orc["rows"]:
+                return (f"every human blow was struck, yet only {len(rows)} of {orc['rows']} rows were completed "
+                        f"(bell {orc['bell']} struck a row ahead while row {orc['r_arm']} was being armed)")
+        return None
+
+    def oracle_C06(self, case, out):
+        return self._judge(case, out) if case["oracle"]["kind"] == "go" else None
+
+    def oracle_C10(self, case, out):
+        return self._judge(case, out)
+
+    def finding_class(self, pid, case, out, msg):
+        orc = case["oracle"]
+        if orc["kind"] == "go" and ("killed the main loop" in msg or "the method started" in msg):
+            return "go-inside-row-turnover"
+        if orc["kind"] == "arming":
+            # the blow lands while some row is being armed: after a human bell of that row has been armed (which
+            # switches the stroke being listened for) and before this bell itself is armed
+            ra, ci, bell = orc["call"] // orc["n"], orc["call"] % orc["n"], orc["bell"]
+            if ra < len(orc["all_rows"]):
+                row = orc["all_rows"][ra]
+                humans_before = [b for b in row[:ci] if b in (2, 3)]
+                if humans_before and row.index(bell) >= ci:
+                    return "early-blow-inside-arming-loop"
         return None
